@@ -19,7 +19,7 @@ RULE = ('each case = one endpoint fed 1..200 PING / PING-ACK frames (unique coun
         'call, frames split across calls), some bursts ending in a frame that is a connection error (PINGs in front of it in the same '
         'call must still be answered: compared with a copy of the endpoint fed frame by frame); non-trivial = at least one PING answered and compared; distinct = hash of '
         'delivered bytes')
-MINIMA = {'pings_matched': 2000, 'ping_acks_delivered': 300, 'local_ping_ok': 200, 'local_ping_refused': 200, 'local_ping_non_bytes_refused': 100,
+MINIMA = {'pings_matched': 2000, 'ping_acks_delivered': 300, 'local_ping_ok': 200, 'local_ping_refused': 200, 'local_ping_payload_repeated': 300, 'local_ping_non_bytes_refused': 100,
           'multi_ping_calls': 200, 'cases_reading_output_in_pieces': 3000, 'rounds_with_a_full_window_of_unsent_output': 300, 'raising_calls_with_pings_compared': 1000, 'pure_ping_cases': 500, 'pure_ping_cases_idle_connection': 100}
 
 
@@ -252,6 +252,9 @@ def local_ping(t, rng, rep, own):
     r = rng.random()
     if r < 0.5:
         p = bytes(rng.randrange(256) for _ in range(8))
+        if own and rng.random() < 0.3:
+            p = rng.choice(own)          # the same eight octets again, answered or not in the meantime: a PING like any other
+            rep.count('local_ping_payload_repeated')
         res = t.call('ping', p)
         if res.exc is not None:
             if isinstance(res.exc, h2.exceptions.ProtocolError):
